@@ -492,12 +492,13 @@ static void describe_packet (const char *tag, const struct sockaddr_in *from, co
 
 /* ------------------------------------------------------------------ main loop under virtual time */
 static unsigned tick_cost_us = 20;
+static gint glib_timeout (void);
 static int iterate_ready (void)
 {
   int n = 0;
   /* every dispatching iteration costs a little (virtual) time, as it does on a real clock: without this
    * a timer re-armed with a sub-millisecond remainder (interval 0) would fire for ever at a frozen instant */
-  while (g_main_context_iteration (ctx, FALSE)) { n++; verif_now_us += tick_cost_us; if (n > 20000) { if (tick_cost_us) printf ("ev spin-detected\n"); break; } }
+  while (g_main_context_iteration (ctx, FALSE)) { n++; verif_now_us += tick_cost_us; if (n > 20000) { if (tick_cost_us) printf ("ev spin-detected\n"); if (getenv ("SIM_DEBUG")) { int k; for (k = 0; k < 3; k++) glib_timeout (); } break; } }
   return n;
 }
 
@@ -741,6 +742,32 @@ static void print_checklist (Ag *g, guint sid)
   agent_unlock (g->agent);
 }
 
+
+/* lifecycle snapshot: stream ids tagged on the agent's internal containers (Nice.Model.Lifecycle).
+ * A refresh that is being disposed asynchronously is suffixed with '!'. */
+static void
+print_res (NiceAgent *agent)
+{
+  GSList *i;
+  if (agent == NULL) { printf ("dead"); return; }
+  agent_lock (agent);
+  printf ("streams");
+  for (i = agent->streams; i; i = i->next) printf (" %u", ((NiceStream *) i->data)->id);
+  printf (" discovery");
+  for (i = agent->discovery_list; i; i = i->next) printf (" %u", ((CandidateDiscovery *) i->data)->stream_id);
+  printf (" refreshes");
+  for (i = agent->refresh_list; i; i = i->next) printf (" %u%s", ((CandidateRefresh *) i->data)->stream_id, ((CandidateRefresh *) i->data)->disposing ? "!" : "");
+  printf (" triggered");
+  for (i = agent->triggered_check_queue; i; i = i->next) printf (" %u", ((CandidateCheckPair *) i->data)->stream_id);
+  printf (" checklists");
+  for (i = agent->streams; i; i = i->next) printf (" %u:%u", ((NiceStream *) i->data)->id, g_slist_length (((NiceStream *) i->data)->conncheck_list));
+  printf (" pruning");
+  for (i = agent->pruning_streams; i; i = i->next) printf (" %u", ((NiceStream *) i->data)->id);
+  printf (" keepalive %d conncheck %d discoverytimer %d next %u", agent->keepalive_timer_source != NULL,
+      agent->conncheck_timer_source != NULL, agent->discovery_timer_source != NULL, agent->next_stream_id);
+  agent_unlock (agent);
+}
+
 int main (void)
 {
   static char line[1 << 20]; char *w[MAXW];
@@ -755,7 +782,10 @@ int main (void)
     if (n == 0) continue;
     if (!strcmp (w[0], "new") && n >= 2) op_new (w, n);
     else if (!strcmp (w[0], "stream") && n == 3 && (g = find_ag (w[1]))) {
-      guint id = nice_agent_add_stream (g->agent, atoi (w[2]));
+      guint id;
+      printf ("ev lc add %s pre ", g->name); print_res (g->agent); putchar ('\n');
+      id = nice_agent_add_stream (g->agent, atoi (w[2]));
+      printf ("ev lc add %s post ", g->name); print_res (g->agent); putchar ('\n');
       printf ("ok stream %u\n", id);
     }
     else if (!strcmp (w[0], "attach") && n == 3 && (g = find_ag (w[1]))) {
@@ -839,7 +869,11 @@ int main (void)
     }
     else if (!strcmp (w[0], "restart") && n == 2 && (g = find_ag (w[1]))) { printf ("ok ret %d\n", nice_agent_restart (g->agent)); total_dispatches += iterate_ready (); }
     else if (!strcmp (w[0], "restartstream") && n == 3 && (g = find_ag (w[1]))) { printf ("ok ret %d\n", nice_agent_restart_stream (g->agent, atoi (w[2]))); total_dispatches += iterate_ready (); }
-    else if (!strcmp (w[0], "rmstream") && n == 3 && (g = find_ag (w[1]))) { nice_agent_remove_stream (g->agent, atoi (w[2])); printf ("ev t=%llu %s rmstream-returned %s\n", (unsigned long long) now_ms (), g->name, w[2]); total_dispatches += iterate_ready (); puts ("ok"); }
+    else if (!strcmp (w[0], "rmstream") && n == 3 && (g = find_ag (w[1]))) {
+      printf ("ev lc rm %s %s pre ", g->name, w[2]); print_res (g->agent); putchar ('\n');
+      nice_agent_remove_stream (g->agent, atoi (w[2]));
+      printf ("ev lc rm %s %s post ", g->name, w[2]); print_res (g->agent); putchar ('\n');
+      printf ("ev t=%llu %s rmstream-returned %s\n", (unsigned long long) now_ms (), g->name, w[2]); total_dispatches += iterate_ready (); puts ("ok"); }
     else if (!strcmp (w[0], "consentlost") && n == 4 && (g = find_ag (w[1]))) { printf ("ok ret %d\n", nice_agent_consent_lost (g->agent, atoi (w[2]), atoi (w[3]))); total_dispatches += iterate_ready (); }
     else if (!strcmp (w[0], "setrole") && n == 3 && (g = find_ag (w[1]))) { g_object_set (g->agent, "controlling-mode", atoi (w[2]), NULL); puts ("ok"); }
     else if (!strcmp (w[0], "relay") && n == 8 && (g = find_ag (w[1]))) {
@@ -899,21 +933,7 @@ int main (void)
     }
     else if (!strcmp (w[0], "res") && n == 2 && (g = find_ag (w[1])) && g->alive) {
       /* stream ids tagged on the agent's internal containers (for the lifecycle model) */
-      GSList *i;
-      agent_lock (g->agent);
-      printf ("ok streams");
-      for (i = g->agent->streams; i; i = i->next) printf (" %u", ((NiceStream *) i->data)->id);
-      printf (" discovery");
-      for (i = g->agent->discovery_list; i; i = i->next) printf (" %u", ((CandidateDiscovery *) i->data)->stream_id);
-      printf (" refreshes");
-      for (i = g->agent->refresh_list; i; i = i->next) printf (" %u", ((CandidateRefresh *) i->data)->stream_id);
-      printf (" triggered");
-      for (i = g->agent->triggered_check_queue; i; i = i->next) printf (" %u", ((CandidateCheckPair *) i->data)->stream_id);
-      printf (" checklists");
-      for (i = g->agent->streams; i; i = i->next) printf (" %u:%u", ((NiceStream *) i->data)->id, g_slist_length (((NiceStream *) i->data)->conncheck_list));
-      printf (" keepalive %d conncheck %d discoverytimer %d\n", g->agent->keepalive_timer_source != NULL,
-          g->agent->conncheck_timer_source != NULL, g->agent->discovery_timer_source != NULL);
-      agent_unlock (g->agent);
+      printf ("ok "); print_res (g->agent); putchar ('\n');
     }
     else if (!strcmp (w[0], "sdp") && n == 3) {
       Ag *a = find_ag (w[1]), *b = find_ag (w[2]);
